@@ -2,7 +2,7 @@
     decidable equality of their genesis values, the external tables, and the model round trip
     that the checks of Corr/C18.v evaluate on what the real modules exported. *)
 From Coq Require Import ZArith NArith List String Bool.
-From PV Require Export Genesis.FullProduct Corr.CorrBase.
+From PV Require Export Genesis.FullProduct Genesis.MarkerLifecycle Corr.CorrBase.
 Import ListNotations.
 Open Scope string_scope.
 Open Scope list_scope.
@@ -108,7 +108,8 @@ Record deep_tables := {
   dt_next_acc : N;
   dt_rec_addrs : list (key * key * key);     (* (session id, record name) -> record address *)
   dt_vo0 : list (key * key);                 (* scope id -> holder of the scope coin in the bank genesis *)
-  dt_blocked : list key }.                   (* addresses the bank does not let receive funds *)
+  dt_blocked : list key;                     (* addresses the bank does not let receive funds *)
+  dt_state_markers : list marker }.          (* the marker accounts as STORED on the exporting chain (registry order) *)
 
 Fixpoint find2 {V} (l : list (key * key * V)) (k1 k2 : key) : option V :=
   match l with
@@ -170,7 +171,14 @@ Definition module_round {G} (name : string) (eqb : G -> G -> bool)
   tag (eqb g1 g2) ("prop:export_after_import_differs:" ++ name)%string ++
   tag (raw_q ix1 ix2) ("prop:index_differs_after_import:" ++ name)%string.
 
+(** every field of every stored marker account is exported as it is stored (sequence 0), whatever
+    the marker's status: the manager of a marker cancelled before it ever was active included *)
+Definition export_is_state (t : deep_tables) (g : marker_genesis) : list string :=
+  tag (list_eqb marker_q (map exported (dt_state_markers t)) (mkg_markers g))
+      "prop:exported_marker_differs_from_stored_account".
+
 Definition deep_round (t : deep_tables) (g1 g2 : deep_genesis) (ix1 ix2 : deep_index) : list string :=
+  export_is_state t (dg_marker g1) ++
   module_round "exchange" exch_genesis_q (exch_model t) exch_derived (dg_exch g1) (dg_exch g2) (di_exch ix1) (di_exch ix2) ++
   module_round "marker" marker_genesis_q (marker_model t) marker_derived (dg_marker g1) (dg_marker g2) (di_marker ix1) (di_marker ix2) ++
   module_round "metadata" md_genesis_q (md_model t) md_derived (dg_md g1) (dg_md g2) (di_md ix1) (di_md ix2).
